@@ -619,6 +619,47 @@ pub fn unencodable_header_case(ctx: &mut Ctx, family: &str, aad: &[u8], payload:
         (None, _) => ctx.count("unencodable-header-refused"),
         _ => {}
     }
+    // an extra entry that repeats a populated field *with the very value the field encodes to*: still
+    // two entries under one label; if bytes come back at all they must not be those of the header
+    // without the extra entry (a different header)
+    let kid = vec![0x31, 0x31 + ctx.rng.below(4) as u8];
+    let mut with = coset::Header::default();
+    with.key_id = kid.clone();
+    if ctx.rng.coin() {
+        with.alg = Some(coset::RegisteredLabelWithPrivate::Assigned(coset::iana::Algorithm::ES256));
+    }
+    let without = with.clone();
+    match ctx.rng.below(3) {
+        0 => with.rest.push((coset::Label::Int(4), coset::cbor::value::Value::Bytes(kid))),
+        1 if with.alg.is_some() => with.rest.push((coset::Label::Int(1), coset::cbor::value::Value::Integer((-7).into()))),
+        _ => with.rest.push((coset::Label::Int(4), coset::cbor::value::Value::Bytes(kid))),
+    }
+    ctx.eval();
+    let a = run(coset::ProtectedHeader { original_data: None, header: with });
+    let b = run(coset::ProtectedHeader { original_data: None, header: without });
+    match (a, b) {
+        (Some(a), Some(b)) if a == b => ctx.violation(&format!("{}/header-with-redundant-extra-collides", ctx.prop), format!("a protected header whose extras repeat a populated field with the same value yields the same {} bytes as the header without that extra entry", family), J::obj(vec![("bytes", J::Str(short(&a)))])),
+        (None, _) => ctx.count("unencodable-header-refused"),
+        _ => ctx.count("unencodable-header-returned-bytes"),
+    }
+}
+
+/// Two headers that are different values but compare equal under `==` of floats: an extra parameter
+/// holding +0.0 in one and -0.0 in the other (f9 0000 vs f9 8000 on the wire).  Anything that decides
+/// "same header" by comparing parsed values instead of bytes confuses them.
+pub fn zero_twins(ctx: &mut Ctx) -> (MHeader, MHeader) {
+    let mut h = if ctx.rng.coin() { MHeader::default() } else { gen::gen_header(&mut ctx.rng, &GenOpts::built(), 2) };
+    let label = crate::model::MLabel::Int(*ctx.rng.pick(&[-70001i64, 99, 1000]));
+    h.rest.retain(|(l, _)| *l != label);
+    let mut a = h.clone();
+    let mut b = h;
+    let at = ctx.rng.below(a.rest.len() + 1);
+    let (za, zb) = if ctx.rng.coin() { (0.0f64, -0.0f64) } else { (-0.0, 0.0) };
+    let wrap = ctx.rng.coin();
+    let val = |z: f64| if wrap { Item::Array(vec![Item::Int(1), Item::Float(z)]) } else { Item::Float(z) };
+    a.rest.insert(at, (label.clone(), val(za)));
+    b.rest.insert(at, (label, val(zb)));
+    (a, b)
 }
 
 /// A protected header assembled by hand (struct literal / field assignment) may hold an IV *and* a
